@@ -9,5 +9,5 @@ Separate Extraction CvDbgModel.cdstep CvDbgModel.cdinit CvDbgModel.cbase CvDbgMo
   CvDbgReplay.push_cdop CvDbgReplay.cdbg_is_idle CvDbgReplay.cdbg_list CvDbgReplay.cdpc_code CvDbgReplay.cdbg_owner
   CvModel.step CvModel.init CvModel.run CvReplay.push_op CvReplay.init_n CvReplay.pc_class CvReplay.vv_target
   CvReplay.wait_is_cancellable CvReplay.last_ret CvReplay.spin_free CvReplay.mu_spin_free CvReplay.rec_owner CvReplay.rec_native
-  CvReplay.lock_field CvReplay.owed_of CvReplay.wlog_len CvModel.cvq CvModel.muq CvModel.mwake CvModel.muw CvModel.cvw CvModel.clock CvModel.nrec CvModel.dead_touch
+  CvReplay.lock_field CvReplay.owed_of CvReplay.wlog_len CvReplay.wake_list CvReplay.generic_left CvModel.cvq CvModel.muq CvModel.mwake CvModel.muw CvModel.cvw CvModel.clock CvModel.nrec CvModel.dead_touch
   CvModel.mu_flags CvModel.get CvModel.sem CvModel.begin_op CvModel.t_pc.
